@@ -148,6 +148,7 @@ type JQOpts struct {
 	StoreLag  bool  // the store's listener lags behind the cache
 	JCSync    bool  // run the real jobconfigcontroller too
 	JCLag     bool  // JobConfig objects are not delivered to the cache before Jobs are created
+	Fifo      bool  // workload profile: one JobConfig at its limit, mostly Enqueue Jobs, no edits (order-sensitive interleavings)
 	JobsFirst bool  // on a restart the Job informer lists (and its handlers run) before the JobConfig informer has listed
 	MaxJobs   int
 }
@@ -745,6 +746,9 @@ func (q *JQ) Enabled(rng *rand.Rand, maxTime int, faultP float64, applied bool) 
 		owners = append(owners, 0)
 		pols := []string{"Allow", "Forbid", "Enqueue", "Enqueue", "Forbid"}
 		sas := []int{0, 0, w.Now(), w.Now() + 1, w.Now() + 2, 1}
+		if q.O.Fifo {
+			owners, pols, sas = []int{1}, []string{"Enqueue", "Enqueue", "Enqueue", "Forbid"}, []int{0}
+		}
 		add(Label{A: "UserCreate", J: next, C: owners[rng.Intn(len(owners))], P: pols[rng.Intn(len(pols))], Sa: sas[rng.Intn(len(sas))], S: rng.Intn(3) == 0}, 3)
 	}
 	for i := 1; i < next; i++ {
@@ -759,6 +763,9 @@ func (q *JQ) Enabled(rng *rand.Rand, maxTime int, faultP float64, applied bool) 
 			} else if rng.Intn(10) == 0 {
 				add(Label{A: "Finish", J: i}, 1)
 			}
+		}
+		if q.O.Fifo {
+			continue
 		}
 		if rng.Intn(8) == 0 {
 			add(Label{A: "Touch", J: i}, 1)
